@@ -197,7 +197,17 @@ impl Prop for C09 {
         let is_grep = ident.get(1).map(|s| s == "grep").unwrap_or(false);
         let is_blame = ident.get(1).map(|s| s == "blame").unwrap_or(false);
         let (input, kind): (Vec<u8>, &str) = if is_grep {
-            (other::grep_stream(t), "grep")
+            // classic / coloured grep lines, or `rg --json` records (some of them multi-line, as
+            // `rg --multiline` writes them), shown in either output type
+            let rg_json = t.chance(1, 3);
+            if t.coin() {
+                cfg.set("grep-output-type", t.ps(&["ripgrep", "classic"]));
+            }
+            if rg_json {
+                (other::rg_json_stream(t), "rg-json")
+            } else {
+                (other::grep_stream(t), "grep")
+            }
         } else if is_blame {
             (other::blame_stream(t), "blame")
         } else if t.chance(1, 5) {
